@@ -494,7 +494,7 @@ class MinErrorFlow():
             self.edge_sol[edge] = (
                 round(edge_sol_dict[edge])
                 if self.weight_type == int
-                else float(edge_sol_dict[edge])
+                else max(0.0, float(edge_sol_dict[edge]))  # the variable's lower bound is 0: the solver may return -1e-14 for it
             )
 
         edge_error_sol_dict = self.solver.get_values(self.edge_error_vars)
